@@ -169,6 +169,13 @@ def _classes_more():
         ("ranges above the basic plane", "from mc import den\nfor a, b in (('\\u4e00', '\\U00010000'), ('\\uffff', '\\U00010000'), ('\\U00010000', '\\U0010ffff'), ('z', '\\U0001f600'), ('\\U0001f600', '\\U0001f64f'), ('\\x7f', '\\u0100'), ('\\u0fff', '\\u1000')):\n"
                                          "    d, m = den.of_text(str(AnyBetween(a, b)))\n    assert d == den.norm([(ord(a), ord(b))]), (a, b)\n    d2, m2 = den.of_text(str(AnyButBetween(a, b)))\n    assert d2 == den.compl(den.norm([(ord(a), ord(b))])), (a, b)\n"
                                          "    for cls in (AnyBetween, AnyButBetween):\n        try:\n            cls(b, a)\n        except InvalidRangeException:\n            continue\n        raise AssertionError('reversed range accepted')"),
+        ("class algebra above U+FFFF", "from mc import den\nN = den.norm\nE = AnyBetween('\\U0001f600', '\\U0001f64f')\nassert den.of_text(str(E - AnyFrom('\\U0001f600')))[0] == N([(0x1f601, 0x1f64f)])\nassert den.of_text(str(E - AnyFrom('\\U0001f64f')))[0] == N([(0x1f600, 0x1f64e)])\n"
+                                       "assert den.of_text(str(E - AnyBetween('\\U0001f610', '\\U0001f620')))[0] == N([(0x1f600, 0x1f60f), (0x1f621, 0x1f64f)])\nassert den.of_text(str(E - AnyFrom('\\U0001f605', '\\U0001f606', '\\U0001f630')))[0] == den.diff(N([(0x1f600, 0x1f64f)]), den.from_chars(['\\U0001f605', '\\U0001f606', '\\U0001f630']))\n"
+                                       "W = AnyBetween('a', '\\U0001f64f')\nassert den.of_text(str(W - AnyBetween('\\uffff', '\\U00010010')))[0] == N([(0x61, 0xfffe), (0x10011, 0x1f64f)])\nassert den.of_text(str(W - AnyBetween('\\ufff0', '\\uffff')))[0] == N([(0x61, 0xffef), (0x10000, 0x1f64f)])\n"
+                                       "B = AnyBetween('\\ufff0', '\\U00010010')\nassert den.of_text(str(B - AnyFrom('\\uffff')))[0] == N([(0xfff0, 0xfffe), (0x10000, 0x10010)])\nassert den.of_text(str(B - AnyFrom('\\U00010000')))[0] == N([(0xfff0, 0xffff), (0x10001, 0x10010)])\n"
+                                       "assert den.of_text(str(E | AnyBetween('\\U0001f640', '\\U0001f680')))[0] == N([(0x1f600, 0x1f680)])\nassert den.of_text(str(~E))[0] == den.compl(N([(0x1f600, 0x1f64f)]))\nassert den.of_text(str(~~E))[0] == N([(0x1f600, 0x1f64f)])\n"
+                                       "assert den.of_text(str(AnyBetween('\\U0010fff0', '\\U0010ffff') - AnyFrom('\\U0010ffff')))[0] == N([(0x10fff0, 0x10fffe)])\nassert den.of_text(str(AnyButBetween('\\U0001f600', '\\U0001f64f') | AnyButFrom('\\U0001f600')))[0] == den.compl(N([(0x1f600, 0x1f64f)]))\n"
+                                       "for bad in (lambda: E - AnyBetween('\\U0001f5ff', '\\U0001f650'), lambda: AnyFrom('\\U0001f600') - E, lambda: E - E):\n    try:\n        r = bad()\n    except EmptyClassException:\n        continue\n    raise AssertionError(str(r))"),
         ("many characters against ranges", "from mc import den\nsc = [chr(0x100 + 3 * i) for i in range(40)]\nA = AnyFrom(*sc)\nB = AnyBetween(chr(0x100), chr(0x100 + 3 * 29)) | AnyBetween(chr(0x400), chr(0x410))\nd, m = den.of_text(str(A - B))\nassert d == den.from_chars(sc[30:]), str(A - B)\n"
                                            "try:\n    r = AnyFrom(*sc) - AnyBetween(chr(0x100), chr(0x200))\nexcept EmptyClassException:\n    pass\nelse:\n    raise AssertionError(str(r))\n"
                                            "R = AnyBetween(chr(0x1000), chr(0x1400))\nholes = [chr(0x1000 + 7 * i + 3) for i in range(120)]\nX = R\nfor h in holes:\n    X = X - h\nd2, _ = den.of_text(str(X))\nassert d2 == den.diff(den.norm([(0x1000, 0x1400)]), den.from_chars(holes)), len(str(X))\n"
